@@ -21,13 +21,17 @@ func TestCheck(t *testing.T) {
 		"atomic: write failures (RLIMIT_FSIZE/EFBIG at 8 limits x 2 initial versions, strace-injected ENOSPC at the N-th write) in a child storing over an existing good cache; SIGKILL of a child that stores two different caches alternately (random times and strace-injected at rename/write/fsync)")
 	r.Assume("a synchronisation response carries every changed profile together with all its devices (backend protocol shape); two live devices never own the same key")
 	r.Assume("keys of devices that a deleted profile still lists are not handed out again; a profile flagged deleted is 'not found' (consumers drop Profile.Deleted)")
-	r.Assume("CreateAutoDevice is not exercised")
+	r.Assume("a device returned by CreateAutoDevice may or may not be served before a synchronisation has delivered it")
 	r.Assume("runtime.NumGoroutine()-baseline counts the unfinished clean-up goroutines (the harness starts no goroutine of its own during sequential histories)")
 
 	dir := scratchDir(t)
 	if os.Getenv("C14_ONLY") == "" || os.Getenv("C14_ONLY") == "seq" {
 		sequential(r, dir)
 		naturalOrder(r)
+	}
+	if os.Getenv("C14_ONLY") == "" || os.Getenv("C14_ONLY") == "stress" {
+		cleanupStress(r)
+		createAuto(r)
 	}
 	if os.Getenv("C14_ONLY") == "" || os.Getenv("C14_ONLY") == "fields" {
 		fieldFidelity(r, dir)
@@ -51,11 +55,17 @@ func TestCheck(t *testing.T) {
 		r.Require("restart_found_compared", 1000)
 		r.Require("restarts_continued", 20)
 		r.Require("restart_field_cases", 80)
-		r.Require("field_variants_seen", 40)
+		r.Require("field_variants_seen", 50)
+		r.Require("restart_ip_form_lookups", 100)
 		r.Require("conc_rounds", 8)
 		r.Require("conc_lookups_overlapping_sync", 100)
 		r.Require("porcupine_ok", 30)
 		r.Require("natural_order_lookups", 1000)
+		r.Require("stress_rounds", 50)
+		r.Require("stress_cleanups_in_flight_during_sync:natural_schedule", 300)
+		r.Require("stress_cleanups_in_flight_during_sync:released_inside_sync", 300)
+		r.Require("create_auto_device_overlapping_sync", 40)
+		r.Require("create_auto_device_ok", 30)
 		r.Require("sync_requests_checked", 1000)
 		r.Require("syncs_failed_full", 8)
 		r.Require("sync_requests_incremental_after_failed_full", 10)
